@@ -144,7 +144,9 @@ func checkSites(id, cat, replay string) {
 			ggrun.WriteTree(root, pr.files)
 			exp2 := gen.Evaluate(bt.P, cfg, root)
 			vres, verr := runVet(root, ggrun.Bin, cfgArgs(cfg), "./...")
-			if verr != nil || len(vres.Errors) > 0 {
+			if vres.TimedOut && !strings.HasPrefix(vres.Stdout, "hang:") {
+				r.Inconclusive(fmt.Sprintf("program %d: %s", i, head(vres.Stdout, 200)))
+			} else if verr != nil || len(vres.Errors) > 0 {
 				r.Violate("vet-driver/failed", fmt.Sprintf("program %d: go vet -vettool failed: %v %v\n%s", i, verr, vres.Errors, head(vres.Stdout, 1500)), replayFiles(pr, nil))
 			} else {
 				mm2, _, _ := gen.Compare(bt.P, exp2, ggrun.ToObs(vres.Diags))
